@@ -93,6 +93,54 @@ theorem InvD.preserved_nodelay {cfg : Cfg} {s s' : State} {l : Label} (hB : InvB
 theorem TS.live_of_not_ended {t : TS} (h1 : t.ended = false) (h2 : t ≠ .absent) : t.live = true := by
   cases t <;> simp_all
 
+theorem exists_live_sub {s : State} (h : noLiveSub s = false) : ∃ i, i < s.nSubs ∧ (s.st (.sub i)).live = true := by
+  apply Classical.byContradiction
+  intro hcon
+  have : noLiveSub s = true := by
+    rw [noLiveSub_iff]
+    intro i hi
+    cases hl : (s.st (.sub i)).live with
+    | false => rfl
+    | true => exact absurd ⟨i, hi, hl⟩ hcon
+  rw [this] at h; cases h
+
+theorem exists_live_stream {s : State} (h : noLiveStream s = false) :
+    ∃ i, i < s.nSubs ∧ s.kind i ≠ .pinger ∧ (s.st (.sub i)).live = true := by
+  apply Classical.byContradiction
+  intro hcon
+  have : noLiveStream s = true := by
+    rw [noLiveStream_iff]
+    intro i hi hk
+    cases hl : (s.st (.sub i)).live with
+    | false => rfl
+    | true => exact absurd ⟨i, hi, hk, hl⟩ hcon
+  rw [this] at h; cases h
+
+/-- While the orchestrator is in the FIRST of its two exit stops (the streams; `orchPing = false`) and time may pass, a stream
+    of the ensemble is still depleting, and its deadline (≤ t + E) bounds the time. -/
+theorem first_stop_deadline {cfg : Cfg} {s : State} {n t : Nat} (hB : InvB s) (hI : InvD cfg s)
+    (ht : s.t0 = some t) (hp : stoppingPhase s)
+    (hu : urgent cfg s = false) (hd : deadlinesAllow cfg s n = true)
+    (hos : (s.st (.root .orchestrator)).isStopping = true) (hop : s.orchPing = false) :
+    s.now + n ≤ t + cfg.E := by
+  obtain ⟨_, _, _, u4, u5⟩ := urgent_false hu
+  obtain ⟨_, d2, _, _⟩ := deadlinesAllow_true hd
+  obtain ⟨i, hi, hk, hil⟩ := exists_live_stream ((u5 hos).2 hop)
+  have hci := (taskUrgent_false (u4 i hi)).1 hil
+  rcases hI.c t ht hp hos i hi hil with ⟨hc, _⟩ | hs | ⟨hk', _⟩
+  · rw [hci] at hc; cases hc
+  · rw [TS.isStopping_iff] at hs
+    obtain ⟨f', dl', hst'⟩ := hs
+    cases dl' with
+    | none => exact absurd hst' (hB.subSome i f')
+    | some d' =>
+      have h1 := hI.dS t ht hp i f' d' hi hk hst'
+      have h2 := d2 i hi
+      rw [hst'] at h2
+      have := dlAllows_stopping h2
+      omega
+  · exact absurd hk' hk
+
 /-- While `run_tasks` stops the root tasks and time may pass, some active deadline bounds it:
     a `finally:` of a root / ensemble task (≤ t + G), or the running cleanup activity. -/
 theorem delay_core {cfg : Cfg} {s : State} {n t : Nat} (hB : InvB s) (hI : InvD cfg s)
@@ -121,20 +169,17 @@ theorem delay_core {cfg : Cfg} {s : State} {n t : Nat} (hB : InvB s) (hI : InvD 
       | none =>
         have hro := hB.stoppingNone r f hst
         subst hro
-        have hnl := u5 (by simp [hst])
-        have : ∃ i, i < s.nSubs ∧ (s.st (.sub i)).live = true := by
-          apply Classical.byContradiction
-          intro hcon
-          have : noLiveSub s = true := by
-            rw [noLiveSub_iff]
-            intro i hi
-            cases hl : (s.st (.sub i)).live with
-            | false => rfl
-            | true => exact absurd ⟨i, hi, hl⟩ hcon
-          rw [this] at hnl; cases hnl
-        obtain ⟨i, hi, hil⟩ := this
+        have hos : (s.st (.root .orchestrator)).isStopping = true := by simp [hst]
+        cases hop : s.orchPing with
+        | false =>
+          -- the first stop (the streams): bounded by `t + E`
+          have := first_stop_deadline hB hI ht hp hu hd hos hop
+          exact ⟨t + cfg.E, this, by unfold G; omega⟩
+        | true =>
+        -- the second stop (the keep-alives): a keep-alive is withdrawing
+        obtain ⟨i, hi, hil⟩ := exists_live_sub (u5 hos).1
         have hci := (taskUrgent_false (u4 i hi)).1 hil
-        rcases hI.c t ht hp (by simp [hst]) i hi hil with ⟨hc, _⟩ | hs
+        rcases hI.c t ht hp hos i hi hil with ⟨hc, _⟩ | hs | ⟨_, hq | ⟨hc, _⟩⟩
         · rw [hci] at hc; cases hc
         · rw [TS.isStopping_iff] at hs
           obtain ⟨f', dl', hst'⟩ := hs
@@ -145,6 +190,8 @@ theorem delay_core {cfg : Cfg} {s : State} {n t : Nat} (hB : InvB s) (hI : InvD 
             have := d2 i hi
             rw [hst'] at this
             exact dlAllows_stopping this
+        · rw [hop] at hq; cases hq
+        · rw [hci] at hc; cases hc
   by_cases hoth : ∃ r, r ≠ Root.startupCleanup ∧ (s.st (.root r)).ended = false
   · obtain ⟨r, hr, hne⟩ := hoth
     exact Or.inl (other r hr hne)
@@ -191,7 +238,7 @@ theorem InvD.preserved_delay {cfg : Cfg} {s : State} {n : Nat} (hB : InvB s) (hI
     InvD cfg { s with now := s.now + n } := by
   obtain ⟨u1, u2, u3, u4, u5⟩ := urgent_false hu
   obtain ⟨d1, d2, d3, d4⟩ := deadlinesAllow_true hd
-  refine ⟨hI.rootPresent, ?_, ?_, ?_, ?_, ?_, hI.b, ?_, hI.d, ?_, hI.f, ?_, ?_, hI.hung, ?_⟩
+  refine ⟨hI.rootPresent, ?_, ?_, ?_, ?_, ?_, hI.b, ?_, hI.d, ?_, hI.f, ?_, ?_, hI.hung, ?_, ?_, hI.dS, ?_⟩
   · intro r f dl hst
     have h1 := d1 r
     rw [hst] at h1
@@ -216,10 +263,12 @@ theorem InvD.preserved_delay {cfg : Cfg} {s : State} {n : Nat} (hB : InvB s) (hI
       rw [this] at hc; cases hc
     · exact Or.inr hs
   · intro t ht hp hos i hi hlive
-    rcases hI.c t ht hp hos i hi hlive with ⟨hc, _⟩ | hs
-    · have := (taskUrgent_false (u4 i hi)).1 hlive
-      rw [this] at hc; cases hc
-    · exact Or.inr hs
+    have hci := (taskUrgent_false (u4 i hi)).1 hlive
+    rcases hI.c t ht hp hos i hi hlive with ⟨hc, _⟩ | hs | ⟨hk, hq | ⟨hc, _⟩⟩
+    · rw [hci] at hc; cases hc
+    · exact Or.inr (Or.inl hs)
+    · exact Or.inr (Or.inr ⟨hk, Or.inl hq⟩)
+    · rw [hci] at hc; cases hc
   · intro t ht hp hlive
     rcases hI.e t ht hp hlive with ⟨hc, _⟩ | hs
     · have := (taskUrgent_false (u3 .startupCleanup)).1 hlive
@@ -240,6 +289,12 @@ theorem InvD.preserved_delay {cfg : Cfg} {s : State} {n : Nat} (hB : InvB s) (hI
   · intro t ht hrt
     unfold rtUrgent at u1
     rcases hrt with h | h | h <;> simp at h <;> simp [h] at u1
+  · intro i f dl hi hk hst
+    have := hI.dlStream i f dl hi hk hst
+    show dl ≤ s.now + n + cfg.E
+    omega
+  · intro t ht hp hos hop
+    exact first_stop_deadline hB hI ht hp hu hd hos hop
 
 /-- `InvD` is an invariant of COOPERATIVE runs (time passes only where `coopDelay` allows). -/
 theorem InvD.preservedC {cfg : Cfg} {s s' : State} {l : Label} (hB : InvB s) (hC : InvC s)
